@@ -140,7 +140,11 @@ def to_compressed(xdata, order="C", mask=None):
     """
     is_masked = is_masked_array(xdata)
     if is_masked or (mask is not None and mask_specified(mask)):
-        data = np.ravel(xdata.data if is_masked else xdata, order)
+        if is_masked:
+            data = xdata.data
+        else:
+            data = xdata.magnitude if is_quantified(xdata) else xdata
+        data = np.ravel(data, order)
         mask = xdata.mask if is_masked else mask
         if mask is not np.ma.nomask:
             data = data.compress(np.logical_not(np.ravel(mask, order)))
